@@ -41,7 +41,7 @@ CLAIMED = {
    text="Theorems (Props/C05.lean): parser.ts is transcribed into Lean (Model/JS.lean: header grammar, saveOffset, info fields, the two flat Float32Arrays, the lazy frame index arithmetic); for every file the Python model "
         "accepts as v0.2 (and v0.1 whose 16-bit field holds the frame count) the JavaScript model returns the same header, header length, fps, frame and people counts and the same flat arrays (js_agrees_v02 / js_agrees_v01), "
         "and the JavaScript flat index is Python's row-major index (js_index). The REAL parser.ts of the working tree is type-stripped and run under Node 22 on every generated file and compared with Pose.read and with the model. "
-        "Partial: the version switch (binary64 Math.round) is a hypothesis of the theorems, v0.0 bodies are compared on the implementation only, binary-parser is a stand-in.",
+        "Partial: the version switch (binary64 Math.round against Python's round(v, 3)) is a hypothesis of the theorems (hcls) — it is evaluated, through both real readers and both model classifiers, on every float32 pattern around the four edges of the two version bands, the only place where the switches could part; v0.0 bodies are compared on the implementation only, binary-parser is a stand-in.",
    technique="Lean 4 proof (extensional equality of two decoders over the same bytes) + three-way differential run: real parser.ts under Node vs Pose.read vs Lean model",
    design="§5 C05"),
  "C06": dict(
@@ -55,9 +55,11 @@ CLAIMED = {
  "C07": dict(
    text="Theorems (Props/C07.lean): no proper prefix of a written file is accepted by a full read (truncated_rejected, from extension/consumption of blind skip-free reader programs), "
         "also through the stream route without a window (truncated_rejected_stream_full); appended bytes do not change the result (trailing_ignored). Windowed stream clause: whenever a windowed stream read of a "
-        "prefix returns, it returns exactly what a read of the complete bytes with that window returns (truncated_window_stream, truncated_window_stream_slice) — by sr_agree, a two-run agreement between the stream "
-        "reader on a prefix and the buffer reader on any extension, for every core program that does not ask how much data follows. Partial: that clause is proved for a cold header cache (the other cache states, "
-        "and 'the prefix read raises when the intact read raises', are decided on the implementation). Every cut offset of small files and every field boundary ±1 of large ones is read through both readers and three cache states.",
+        "prefix returns, the read of the intact bytes with that window and the same cache state returns too, with exactly the same pose and cache entry — for EVERY prefix, window and consistent state of the header cache "
+        "(truncated_window_stream_complete; so where the intact read raises — conflicting bounds, a start at or beyond the last frame — the prefix read raises; truncated_window_stream_any_cache, truncated_window_stream_slice; "
+        "cache_stays_ok: the cache hypothesis is the invariant reads maintain) — by sr_agree, a two-run agreement between the stream reader on a prefix and the buffer reader on any extension for every core program that does "
+        "not ask how much data follows, header_agree (hit / miss case analysis with prefix determinism of the header decoder), and the window checks seeing the intact file's counts. "
+        "Every cut offset of small files and every field boundary ±1 of large ones is read through both readers and three cache states.",
    technique="Lean 4 proof (generic truncation argument over reader programs; two-run agreement of the stream reader on a prefix with the buffer reader on the file) + exhaustive cut-offset enumeration on the implementation",
    design="§5 C07"),
  "C08": dict(
@@ -92,7 +94,7 @@ CLAIMED = {
         "offset + index-of-name, every requested name exists, colours and format are kept (select_component); the limbs of the selection connect the same NAMED points as before and lie within the new point list (select_limbs_names); "
         "get_point_index of the first component with a name is its running offset plus the index of the point (pointIndex_go); removing components / points is by definition selecting the complement, absent names ignored "
         "(remove_eq_select_complement, remove_points_eq_select). The real calls are run on generated multi-component poses and compared with the model and, point by point and limb by limb by NAME, with the source; the known-format helpers "
-        "(hide / remove legs, wrist correction, holistic reduction) are checked on OpenPose and Holistic-shaped headers on the implementation (only the named points change) — partial: helpers are not modelled in Lean.",
+        "(hide / remove legs, wrist correction, holistic reduction) are checked on OpenPose and Holistic-shaped headers on the implementation (only the named points change) and against their Lean model (Model/Helpers.lean: hidePoints_other / hidePoints_hidden — hiding changes exactly the named points, which become zeros with confidence 0 and, as numpy does for a plain assignment, unflagged; mem_namedIndexes; correctWrist_other / correctWrist_at — only the body wrist changes, taking the hand wrist's values where that is observed; remove-legs and holistic reduction are the selection calls of the theorems above). Partial: which names belong to which format are the library's tables, read by the harness.",
    technique="Lean 4 proof (list/index reasoning over the header transcription) + differential correspondence and name-level oracle",
    design="§5 C11"),
  "C12": dict(
@@ -101,7 +103,7 @@ CLAIMED = {
         "coordinates (F, P, header points, D), confidences (F, P, points), missing flags = the ones derived from confidence 0 in all D coordinates (wf_pointwise). step_inv: every operation whose stated precondition holds maps a "
         "well-formed pose to a well-formed pose; run_inv: so does every sequence, of any length; fits_of_inv / serialisable: a well-formed NumPy pose has the shape its header describes, so C01's write → read theorem applies. "
         "Supporting lemmas: bbox_inv (the box mask is the derived mask because a consistent point is missing in all coordinates at once), interpolate_inv, matmul_inv, getComponents_shape (index list matches the new header, "
-        "stays inside the old one, formats kept). Partial: that normalize / normalize_distribution leave the mask alone under their preconditions, the dropouts' draws and torch / tensorflow bodies are decided on the implementation: "
+        "stays inside the old one, formats kept). normalize, normalize_distribution and unnormalize_distribution are such transforms whenever they return (normalize_is_transform, normalizeDistribution_is_transform, unnormalizeDistribution_is_transform), hence keep a pose well-formed (normalize_wf, …). Partial: the dropouts' draws and torch / tensorflow bodies are decided on the implementation: "
         "random precondition-respecting operation sequences with the invariant evaluated after every step on all three backends and write → read at the end.",
    technique="Lean 4 proof (invariant by induction over operation sequences on nested arrays; refinement to C01 for serialisation) + randomised sequence execution with invariant checks and model correspondence",
    design="§5 C12"),
@@ -113,7 +115,7 @@ CLAIMED = {
         "points at z = 0 when the first line point is a plane point (plane_at_z0_partial — the unconditional statement is known finding K3); the line on the negative-Y half-plane with 3-D length = size (line_on_negative_y); "
         "translation and uniform-scale invariance (normalize3D_translation_invariant, normalize3D_scale_invariant); and the NEGATION of rotation invariance with an exact witness (not_rotation_invariant: z = −1/15 vs −1/25 "
         "after a 90° turn about Z) — known finding K2, replayed on the implementation on every run. Partial: float rounding; arctan2 / Rotation.from_euler modelled by cos θ = −v_y / r, sin θ = v_x / r (the model agrees with scipy "
-        "on every generated case); the lift of the distribution theorems to the body for axes (0, 1, 2) is checked on the implementation. All three normalisers are run on NumPy (and tensorflow for the first two) poses and "
+        "on every generated case); (the distribution theorems are lifted to the body for both axis choices: normalizeDistribution_post for axes (0, 1), normalizeDistribution_post_all for axes (0, 1, 2)). All three normalisers are run on NumPy (and tensorflow for the first two) poses and "
         "compared with the postconditions, the invariances and the model.",
    technique="Lean 4 proof over ℝ (Mathlib: ring / field_simp / Real.sqrt lemmas; list-level lift lemmas) incl. a proved counter-example + differential correspondence and postcondition oracle on the implementation",
    design="§5 C13"),
